@@ -164,7 +164,7 @@ def run_config(m, spec, V, x0, horizon, cfg, hostile=None, closed=False, grid=No
         horizon = float(np.asarray(grid, dtype=float)[-1])
     try:
         with probe, contextlib.redirect_stdout(io.StringIO()):
-            out = m.solve_stochast(t_arg, cfg["n"], exact=cfg["exact"], full_output=True)
+            out = m.solve_stochast(t_arg, cfg["n"], exact=cfg["exact"], full_output=cfg.get("full_output", True))
     except StepCap:
         res["inconclusive"] = "monitor-step-cap"
         return res
